@@ -152,6 +152,24 @@ TrCardCell ==
                    <<"C18.accessors", e.acc.d = e.d /\ e.acc.h = e.h /\ e.acc.w = e.w>> >>,
                 {"CardCell"})
 
+\* the printer as an iterator: skip(k), step_by(max(k,1)), nth(k) followed by the rest, count, last, size_hint after one next
+TrCardPrint ==
+    /\ IsEv("CardPrint")
+    /\ LET e == E
+           N == e.w * e.h
+           cells == [i \in 1..N |-> SubSeq(e.data, (i - 1) * e.d + 1, i * e.d)]
+           from(a) == IF a > N THEN <<>> ELSE SubSeq(cells, a, N)
+           s == IF e.k = 0 THEN 1 ELSE e.k
+           stepped == [j \in 1..((N + s - 1) \div s) |-> cells[(j - 1) * s + 1]] IN
+       IF e.res.kind = "panic" THEN DonePure(<< <<"C18.total", FALSE>> >>, {"CardPrint"}) ELSE
+       DonePure(<< <<"C18.printSkip", e.skip = from(e.k + 1)>>,
+                   <<"C18.printStep", e.step = stepped>>,
+                   <<"C18.printNth", e.nth = from(e.k + 1)>>,
+                   <<"C18.printCount", e.count = N>>,
+                   <<"C18.printLast", e.last = (IF N = 0 THEN <<>> ELSE <<cells[N]>>)>>,
+                   <<"C18.printHint", e.hintLo <= N - 1 /\ (e.hintHi = -1 \/ e.hintHi >= N - 1)>> >>,
+                {"CardPrint"})
+
 \* (\E cs \in {..} binds the coordinates as a value: a LET definition would be re-evaluated at every use)
 TrCardSize ==
     /\ IsEv("CardSize")
@@ -274,7 +292,12 @@ TrDraws ==
           << <<"C15.digitRange", count(LAMBDA d : d \in 0..9) = total>>,
              <<"C15.digitBias", 10 * dev <= 343 * (ISqrt(total) + 1)>>,   \* |low - 0.6 n| <= 7 standard deviations (sd = sqrt(0.24 n))
              <<"C15.noRepeat", Distinct(e.obs)>>,
-             <<"C15.digitFrequency", \A d \in 0..9 : LET f == count(LAMBDA x : x = d) IN 20 * f >= total /\ 20 * f <= 3 * total>> >>
+             <<"C15.digitFrequency", \A d \in 0..9 : LET f == count(LAMBDA x : x = d) IN 20 * f >= total /\ 20 * f <= 3 * total>>,
+             \* no position is tied to another one: two positions carry the same digit in about a tenth of the cards
+             \* (bound: a quarter; with n >= 200 cards more than 7 standard deviations away).  Cards of up to 110 digits.
+             <<"C15.digitPositions", (Len(e.obs[1]) <= 110 /\ n >= 200) =>
+                  \A p \in 1..Len(e.obs[1]), q \in 1..Len(e.obs[1]) :
+                      p < q => 4 * Cardinality({k \in 1..n : e.obs[k][p] = e.obs[k][q]}) <= n>> >>
         ELSE << <<"H.unknownSite", FALSE>> >>,
         {"Draws", "Draws." \o e.site \o "." \o e.via})
 
@@ -297,7 +320,7 @@ TrDrawStream ==
 Next ==
     \/ TrReset \/ SkipBad(<<>>) \/ TrDrawStream
     \/ TrNorm \/ TrNormCmp \/ TrNormSweep \/ TrPin \/ TrPinVerify \/ TrPinSweep
-    \/ TrIntegrity \/ TrIntegrityReconnect \/ TrCardSize \/ TrCardCell \/ TrCardCoord \/ TrCardProof \/ TrCardVerify
+    \/ TrIntegrity \/ TrIntegrityReconnect \/ TrCardSize \/ TrCardCell \/ TrCardPrint \/ TrCardCoord \/ TrCardProof \/ TrCardVerify
     \/ TrDraws
 
 Spec == Init /\ [][Next]_vars
